@@ -466,7 +466,7 @@ package shimagent
 //@ # ---------------------------------------------------------------- construction: the invariants every method relies on are established here
 //@ # c09: in no-upstream mode the cache starts with the hashes of the upstream certificates whose key id decodes as a YSSHCA KeyID
 //@ func newShimAgent(conn, noUpstream)
-//@   flag nolockcheck
+//@   flag nolockcheck logged
 //@   let l0 = old(calls(Agent.List))
 //@   ensures conn == nil ==> (result0 == nil && result1 != nil)
 //@   ensures result1 != nil ==> result0 == nil
@@ -486,3 +486,12 @@ package shimagent
 //@     invariant condsOK(srv)
 //@     invariant forall(j, 0 <= j && j < len(keys), keys[j] != nil && keys[j] == listed(l0, j), keys[j])
 //@     invariant forall(j, 0 <= j && j <= rangeindex#2, hiddenBlob(kb(listed(l0, j))) ==> (sha(kb(listed(l0, j))) in dom(srv.upstreamSSHCACertCache)))
+
+//@ func New(opt)
+//@   flag nolockcheck
+//@   let n0 = old(calls(newShimAgent))
+//@   ensures result1 != nil ==> result0 == nil
+//@   ensures [built-by-newShimAgent-with-the-requested-mode] result1 == nil ==> (calls(newShimAgent) == n0 + 1 && arg(newShimAgent, n0, 1) == opt.NoUpstream && ret(newShimAgent, n0, 1) == nil &&
+//@     typeof(result0) == *Server && pl(result0) == ret(newShimAgent, n0, 0) && pl(result0) != 0)
+//@   ensures [comparator-always-set] result1 == nil ==> result0.(*Server).pubKeyComp != nil
+//@   ensures [invariants-established] result1 == nil ==> (inv(result0.(*Server)) && inv2(result0.(*Server)) && condsOK(result0.(*Server)) && unheld(result0.(*Server)) && !result0.(*Server).locked)
